@@ -67,6 +67,10 @@ pub struct SimOs {
     /// normalised path -> node; the root directory "" is implicit
     pub nodes: BTreeMap<String, Node>,
     pub faults: BTreeMap<usize, FaultSpec>,
+    /// regular files that cannot be opened for writing (EACCES); reading them is fine. A STATE of
+    /// the file system, not a fault: it holds for every call of the run. Only used by scenarios
+    /// that neither rename nor remove anything (the flag is kept by path).
+    pub readonly: std::collections::BTreeSet<String>,
     pub stdin: Vec<StdinEvent>,
     pub stdin_pos: usize,
     pub stdout: Vec<(usize, String)>,
@@ -86,6 +90,7 @@ impl SimOs {
             mode: Mode::Sim,
             nodes: BTreeMap::new(),
             faults: BTreeMap::new(),
+            readonly: Default::default(),
             stdin: Vec::new(),
             stdin_pos: 0,
             stdout: Vec::new(),
